@@ -1,5 +1,5 @@
 (* C13 - lemmas about Model/C13_Signal.v (built on the closed form [expected] of C01's proofs). *)
-From Coq Require Import ZArith List Bool Lia ZifyBool Permutation.
+From Coq Require Import String ZArith List Bool Lia ZifyBool Permutation.
 From NessaiV Require Import Lib.Effects Model.C01_LiveSet Proofs.C01_LiveSet_proofs Model.C13_Signal.
 Import ListNotations.
 
@@ -347,6 +347,21 @@ Lemma reseed_refuted :
   /\ rs_live_after true = [20; 20; 21; 21]%Z /\ nodupb (rs_live_after true) = false
   /\ nodupb (rs_live_after false) = true.
 Proof. vm_compute. repeat split. Qed.
+
+(* ---- every attribute the populate path reads survives pickle + resume ------------------------------ *)
+Theorem fields_sound (dropped read restored : list string) :
+  fields_ok dropped read restored = true ->
+  forall (st : fstore) f, In f read -> st f = true -> pickle_resume dropped restored st f = true.
+Proof.
+  unfold fields_ok. rewrite forallb_forall. intros H st f Hin Hst. specialize (H f Hin).
+  unfold pickle_resume. destruct (smem f restored); [reflexivity|].
+  destruct (smem f dropped); [discriminate|exact Hst].
+Qed.
+
+Lemma fields_refuted :
+  fields_ok ["training_data"%string] ["training_data"%string] [] = false
+  /\ pickle_resume ["training_data"%string] [] (fun _ => true) "training_data"%string = false.
+Proof. split; reflexivity. Qed.
 
 (* ---- the importance sampler refuses mid-iteration checkpoints -------------------------------- *)
 Theorem ins_intact {FS} (write touch : FS -> FS) : forall effs fs,
